@@ -1,0 +1,43 @@
+// Copyright (c) 2026 10X Genomics, Inc. All rights reserved.
+
+//go:build verif
+
+package syntax
+
+// Exports of unexported lexer functions for the external verification
+// harness (property C08).  This file is only compiled with `-tags verif`.
+
+// VerifParseInt exposes parseInt (panics on input it does not expect).
+func VerifParseInt(s []byte) int64 { return parseInt(s) }
+
+// VerifParseFloat exposes parseFloat (panics on input it does not expect).
+func VerifParseFloat(s []byte) float64 { return parseFloat(s) }
+
+// VerifParseFloat32 exposes parseFloat32.
+func VerifParseFloat32(s []byte) float32 { return parseFloat32(s) }
+
+// VerifUnquoteBytes exposes unquoteBytes.
+func VerifUnquoteBytes(s []byte) []byte { return unquoteBytes(s) }
+
+// VerifTokInt exposes the integer token rule (the matched prefix or nil).
+func VerifTokInt(b []byte) []byte { v, _ := tokIntRule(b); return v }
+
+// VerifTokFloat exposes the float token rule.
+func VerifTokFloat(b []byte) []byte { v, _ := tokFloatRule(b); return v }
+
+// VerifTokString exposes the string token rule.
+func VerifTokString(b []byte) []byte { v, _ := tokStringRule(b); return v }
+
+// VerifNextToken exposes nextToken.
+func VerifNextToken(b []byte) (int, []byte) { return nextToken(b) }
+
+// Token ids the harness needs to interpret VerifNextToken.
+const (
+	VerifTokSKIP      = SKIP
+	VerifTokCOMMENT   = COMMENT
+	VerifTokINVALID   = INVALID
+	VerifTokNUM_INT   = NUM_INT
+	VerifTokNUM_FLOAT = NUM_FLOAT
+	VerifTokLITSTRING = LITSTRING
+	VerifTokID        = ID
+)
